@@ -1,8 +1,9 @@
 (** C11 — keyed lists keep item identity and end in the new order.
     Statements only; proofs live in Dom/KeyedProofs.v, Dom/KeyedTop.v (model: Dom/Keyed.v,
     the transcription of tachys/src/view/keyed.rs after the [fix:] commit).
-    All theorems are UNBOUNDED: any key lists without duplicates, any number m >= 1 of DOM
-    nodes per item, any leading siblings [pre] and following siblings [post]. *)
+    All theorems are UNBOUNDED: any key lists without duplicates, any item views (a [builder]
+    says which fresh, non-empty list of nodes the state of the item view of a key owns;
+    [fixed_bld m] = m nodes per item), any leading siblings [pre] and following siblings [post]. *)
 From Coq Require Import List NArith.
 From LV Require Import Dom.Dom Dom.Keyed Dom.KeyedProofs Dom.KeyedTop.
 Import ListNotations.
@@ -32,8 +33,8 @@ Print Assumptions C11_history_ok.
 (** the starting point: building a keyed list and mounting it before the first following
     sibling (or appending it) establishes the invariant, for any keys and sibling context *)
 Theorem C11_build_mount_wf :
-  forall (m : nat) (pre post : list node) (next : N) (keys : list N),
-    1 <= m -> NoDup keys -> NoDup (pre ++ post) ->
+  forall (m : builder) (pre post : list node) (next : N) (keys : list N),
+    bld_ok m -> NoDup keys -> NoDup (pre ++ post) ->
     (forall n, In n (pre ++ post) -> (n < next)%N) ->
     st_wf pre post (fst (build_mount m (pre ++ post) (hd_error post) next keys)) /\
     ks_keys (fst (build_mount m (pre ++ post) (hd_error post) next keys)) = keys.
@@ -43,9 +44,9 @@ Print Assumptions C11_build_mount_wf.
 (** the core of the repaired elision: on any two non-empty duplicate-free lists, apply_diff
     driven by diff ends with exactly the keys [to], in the DOM too *)
 Theorem C11_apply_diff_props :
-  forall (pre post : list node) (mk : node) (to : list N) (m : nat) (its : list item)
+  forall (pre post : list node) (mk : node) (to : list N) (m : builder) (its : list item)
          (next : N) (gen : nat),
-    1 <= m -> wf_items pre post mk next its -> NoDup to ->
+    bld_ok m -> wf_items pre post mk next its -> NoDup to ->
     apply_props pre post mk to its next gen
       (apply_diff m mk (diff (map it_key its) to) to (start pre post mk its next gen)).
 Proof. exact apply_diff_props. Qed.
